@@ -93,6 +93,12 @@ CHECKS = {
     design="5/C05",
     note="Trusted: Lean kernel; equality of the emitted statements and composition of results are observed on sampled cascades and inputs, not derived from a model of the emitters.",
     technique="Lean 4 proofs over the shared-state model (partial) + prefix/segment/stand-alone text differential and chained-oracle execution on the real compiler"),
+ "C16": dict(
+    category="proof",
+    text="PARTIAL. Lean theorems (Props/C16) on the stamp algebra: stamps_injective (if every loop rank is stamped and each component - coordinate, position in the iterated fiber, coordinate relative to the enclosing partition level - is injective in the loop's own coordinate for fixed outer coordinates, two different iteration vectors never carry the same stamp, for every number of loops), perm_injective (distributing the components over the space and time tuples loses nothing), rel_coord_injective, slip_unique (with slip the time stamp counts earlier activities at the same space stamp: all (space, time) pairs are distinct, for every sequence). Decided by execution of generated spacetime programs (G6 over G1-G3 and an occupancy+shape+flatten family; every split of the loop ranks, all styles, slip on/off): same tensors as the Einsum and as the plain compile; one addActivity per executed update; every displayed tensor gets a point with one coordinate per rank, each slot filled by the loop variable of the rank displayed at that slot and naming an existing element; no duplicate stamps when levels are looped outermost to innermost.",
+    design="5/C16",
+    note="Trusted: Lean kernel; that the emitted stamp components are those functions of the loop coordinates is observed by execution on sampled programs/inputs; minifiber's canvas recorder. Coordinate-style stamps on flattened ranks are excluded (C06 known finding).",
+    technique="Lean 4 proofs of stamp injectivity / slip uniqueness (partial) + execution of the real spacetime programs with an activity recorder"),
 }
 
 NOT_YET = {}
